@@ -394,6 +394,14 @@ func (s *Store) lookupSecretInternal(ctx context.Context, name string) (Secret, 
 		ch := s.single.DoChan("lookup:"+name, func() (any, error) {
 			sv, err := s.client.Get(ctx, name)
 			if err != nil {
+				if ctx.Err() == nil && (errors.Is(err, context.DeadlineExceeded) || errors.Is(err, context.Canceled)) {
+					// The request failed with a context-flavoured error although
+					// the context that governs it is still live (for example, the
+					// HTTP client's own timeout). That is a failed lookup, not a
+					// cancellation: do not let it look like one to the callers
+					// below, which would retry.
+					return nil, fmt.Errorf("lookup %q: %v", name, err)
+				}
 				return nil, fmt.Errorf("lookup %q: %w", name, err)
 			}
 
